@@ -123,6 +123,15 @@ class Tr:
             for v in e.values[1:]:
                 out = "(.%s %s %s)" % (tag, out, self.expr(v))
             return out
+        if isinstance(e, ast.Compare) and len(e.ops) == 1 and isinstance(e.ops[0], (ast.Eq, ast.NotEq)) \
+                and isinstance(e.left, ast.Tuple) and isinstance(e.comparators[0], ast.Tuple) \
+                and len(e.left.elts) == len(e.comparators[0].elts) >= 1:
+            # (a, b, c) != (x, y, z)  ==  a != x or b != y or c != z     (and dually for ==)
+            parts = [self.expr(ast.Compare(left=l, ops=[e.ops[0]], comparators=[r])) for l, r in zip(e.left.elts, e.comparators[0].elts)]
+            out = parts[0]
+            for q_ in parts[1:]:
+                out = "(.%s %s %s)" % ("or" if isinstance(e.ops[0], ast.NotEq) else "and", out, q_)
+            return out
         if isinstance(e, ast.Compare) and len(e.ops) == 1:
             op, a, b = e.ops[0], e.left, e.comparators[0]
             if isinstance(op, (ast.In, ast.NotIn)):
@@ -154,6 +163,85 @@ class Tr:
         raise Untranslatable("expression %s" % ast.unparse(e))
 
     # ---------------------------------------------------------------- statements
+    # ---------------------------------------------------------------- helper inlining
+    def helper_of(self, call):
+        """the FunctionDef a call refers to when it is a private helper of the same class (`self._x(...)`) or of the module
+        (`_x(...)`), else None"""
+        f = call.func
+        owner = getattr(self, "owner", None)
+        if isinstance(f, ast.Attribute) and isinstance(f.value, ast.Name) and f.value.id == "self" and owner is not None \
+                and f.attr.startswith("_") and not f.attr.startswith("__"):
+            fn = vars(owner).get(f.attr)
+            fn = getattr(fn, "__func__", fn)
+            skip_self = not isinstance(vars(owner).get(f.attr), staticmethod)
+        elif isinstance(f, ast.Name) and f.id.startswith("_") and inspect.isfunction(self.g.get(f.id)) \
+                and not inspect.isgeneratorfunction(self.g.get(f.id)):
+            fn, skip_self = self.g.get(f.id), False
+        else:
+            return None
+        if not inspect.isfunction(fn):
+            return None
+        fd = ast.parse(textwrap.dedent(inspect.getsource(fn))).body[0]
+        params = [a.arg for a in fd.args.args][1 if skip_self else 0:]
+        if fd.args.vararg or fd.args.kwarg or fd.args.kwonlyargs or call.keywords or len(params) != len(call.args) \
+                or not all(isinstance(a, (ast.Name, ast.Constant)) for a in call.args):
+            return None
+        stored = {n.id for n in ast.walk(fd) if isinstance(n, ast.Name) and isinstance(n.ctx, ast.Store)}
+        if any(isinstance(a, ast.Constant) and p in stored for p, a in zip(params, call.args)):
+            return None
+        return fd, dict(zip(params, call.args))
+
+    def expand(self, stmts, depth=0):
+        """splice the bodies of private helpers into the statement list: `self._x()` / `_x(a, b)` as a statement (helper without
+        `return <value>`), and `return _x(a, b)` in tail position - pure code motion then leaves the transcription unchanged"""
+        out = []
+        for st in stmts:
+            call, tail = None, False
+            if isinstance(st, ast.Expr) and isinstance(st.value, ast.Call):
+                call = st.value
+            elif isinstance(st, ast.Return) and isinstance(st.value, ast.Call):
+                call, tail = st.value, True
+            h = self.helper_of(call) if (call is not None and depth < 3) else None
+            if h is None:
+                out.append(st)
+                continue
+            fd, ren = h
+            body = [b for b in fd.body if not (isinstance(b, ast.Expr) and isinstance(b.value, ast.Constant) and isinstance(b.value.value, str))]
+            rets = [n for n in ast.walk(fd) if isinstance(n, ast.Return)]
+            if not tail and any(r.value is not None for r in rets):
+                out.append(st)
+                continue
+            if not tail and any(r is not body[-1] for r in rets):
+                out.append(st)             # an early `return` in a helper called as a statement would leave the caller
+                continue
+            helper_locals = {n.id for n in ast.walk(fd) if isinstance(n, ast.Name) and isinstance(n.ctx, ast.Store)} - set(ren)
+
+            class R(ast.NodeTransformer):
+                def visit_Name(self_inner, n):
+                    a = ren.get(n.id)
+                    if a is None:
+                        return n
+                    if isinstance(a, ast.Name):
+                        return ast.copy_location(ast.Name(id=a.id, ctx=n.ctx), n)
+                    return ast.copy_location(ast.Constant(value=a.value), n)
+            body = [R().visit(b) for b in body]
+            if not tail and body and isinstance(body[-1], ast.Return):
+                body = body[:-1]
+            self.locals |= helper_locals
+            out += self.expand(body, depth + 1)
+        return out
+
+    def expand_all(self, stmts):
+        """expand() applied to this statement list and to every nested one"""
+        out = self.expand(list(stmts))
+        for st in out:
+            for field in ("body", "orelse", "finalbody"):
+                if isinstance(getattr(st, field, None), list) and not isinstance(st, (ast.FunctionDef, ast.ClassDef, ast.Lambda)):
+                    setattr(st, field, self.expand_all(getattr(st, field)))
+            for h in getattr(st, "handlers", []) or []:
+                h.body = self.expand_all(h.body)
+        return out
+
     def block(self, stmts):
         out = None
         for s in reversed(stmts):
@@ -316,27 +404,28 @@ class Tr:
         """lenient: a leaf statement outside the fragment becomes `.unsupported` (running it is `stuck`) instead of
         refusing the whole function - for code that the theorem's hypotheses make unreachable"""
         self.lenient = lenient
+        self.owner = owner
         fn = getattr(owner or self.m, name)
         tree = ast.parse(textwrap.dedent(inspect.getsource(fn)))
         fd = tree.body[0]
         self.locals = {a.arg for a in fd.args.args} | {n.id for n in ast.walk(fd) if isinstance(n, ast.Name) and isinstance(n.ctx, ast.Store)} \
             | {h.name for h in ast.walk(fd) if isinstance(h, ast.ExceptHandler) and h.name}
-        # canonical names: parameter k -> "p<k>", locals -> "v<k>" in the order in which the source first binds them,
-        # so that renaming a local (or a parameter) does not change the transcription
+        self.rename = {}
+        # splice private helpers in first, everywhere (so that moving code into a helper changes nothing) ...
+        fd.body = self.expand_all(fd.body)
+        # ... then canonical names: parameter k -> "p<k>", locals -> "v<k>" in the order in which the (expanded) source first
+        # binds them, so that renaming a local (or a parameter) does not change the transcription
         self.rename = {a.arg: "p%d" % k for k, a in enumerate(fd.args.args) if a.arg not in ("self", self.sock)}
-        binders = []
-        for n in ast.walk(fd):
-            if isinstance(n, ast.Name) and isinstance(n.ctx, ast.Store):
-                binders.append((n.lineno, n.col_offset, n.id))
-            elif isinstance(n, ast.ExceptHandler) and n.name:
-                binders.append((n.lineno, n.col_offset, n.name))
-        for _, _, name in sorted(binders):
-            if name not in self.rename:
+
+        def preorder(node):
+            yield node
+            for ch in ast.iter_child_nodes(node):
+                yield from preorder(ch)
+        for n in preorder(fd):
+            name = n.id if (isinstance(n, ast.Name) and isinstance(n.ctx, ast.Store)) else \
+                (n.name if (isinstance(n, ast.ExceptHandler) and n.name) else None)
+            if name is not None and name not in self.rename:
                 self.rename[name] = "v%d" % sum(1 for v in self.rename.values() if v.startswith("v"))
-        got = [a.arg for a in fd.args.args]
-        if got != params or fd.args.vararg or fd.args.kwarg or fd.args.kwonlyargs or \
-                any(ast.unparse(d) not in ("staticmethod",) for d in fd.decorator_list):
-            raise Untranslatable("%s%r: signature changed (expected %r)" % (name, got, params))
         return self.block(fd.body)
 
     def subclass_table(self):
